@@ -59,15 +59,9 @@ def evaluate(mod, cases):
         XCHECK = xcheck.cross_check(reqs, answers) if os.environ.get('VERIF_XCHECK', '1') != '0' else (0, [])
     except Exception as e:
         XCHECK = (0, ['extraction cross-check crashed: %r' % (e,)])
-    out = []
-    for c, im, (s, n) in zip(cases, impls, spans):
-        mo = answers[s:s + n]
-        try:
-            v = mod.judge(c, im, mo)
-        except Exception as e:  # a judge that crashes must not pass silently
-            import traceback
-            v = dict(disagree=['judge crashed: %s' % traceback.format_exc()[-600:]], fail=[], nontrivial=False)
-        out.append((c, im, mo, v))
+    triples = [(c, im, answers[s:s + n]) for c, im, (s, n) in zip(cases, impls, spans)]
+    verdicts = common.run_judges(mod.__name__, triples)
+    out = [(c, im, mo, v) for (c, im, mo), v in zip(triples, verdicts)]
     return out
 
 
